@@ -19,14 +19,12 @@ def grid_check(ctx, own, *, nontrivial_note=None, quick_fast=900, quick_slow=48,
             # also with several construction years (directed: the shipped ones use the default single year), and redrawn
             # economic parameters
             sbt_names = ['example_SBT_Lo_T', 'example_SBT_Hi_T']
-            jobs += workload.example_jobs(ctx, oracles, sbt_names, perturbed=ctx.pick(1, 6))
-            for name in sbt_names:
-                case, raw = gen.example_case(name)
-                gen.cset(case, 'Construction Years', ctx.rng.choice([2, 3, 4, 7]))
-                if ctx.rng.random() < 0.5:
-                    gen.cset(case, 'Plant Lifetime', ctx.rng.choice([7, 15, 25, 35]))
+            jobs += workload.example_jobs(ctx, oracles, sbt_names, perturbed=0)
+            for k in range(ctx.pick(6, 36)):
+                name = sbt_names[k % 2]
+                case, raw = gen.sbt_case(ctx.rng, name, k)
                 jobs.append({'fn': 'gxv.jobs:run_oracles',
-                             'args': {'text': gen.render(case, raw), 'oracles': oracles, 'tag': {'example': name, 'directed': 'construction-years'}},
+                             'args': {'text': gen.render(case, raw), 'oracles': oracles, 'tag': {'example': name, 'sbt_variant': k}},
                              'timeout': 900})
     if extra_jobs:
         jobs += extra_jobs
